@@ -152,7 +152,7 @@ pub fn apply(w: &mut World, op: &PuOp) -> Outcome {
             &pm::ExecuteMsg::ProvideLiquidity {
                 liquidity_max_slippage: liq_slip.map(bps),
                 swap_max_slippage: swap_slip.map(bps),
-                receiver: recv.map(|r| w.users[r].to_string()),
+                receiver: recv.map(|r| accounts(w)[r].to_string()),
                 pool_identifier: pool.clone(),
                 unlocking_duration: *lock,
                 lock_position_identifier: lock_id.clone(),
@@ -533,9 +533,15 @@ pub fn enabled(w: &World, pre: &PuObs, alpha: Alpha) -> Vec<PuOp> {
         }
         let fee_now = pre.cfg.as_ref().map(|c| c.pool_creation_fee.amount.u128()).unwrap_or(1000);
         ops.push(PuOp::SetPoolFee { u: OWNER, denom: "uusd".into(), amt: if fee_now == 1000 { 2000 } else { 1000 } });
+        if fee_now != 0 {
+            ops.push(PuOp::SetPoolFee { u: OWNER, denom: "uusd".into(), amt: 0 }); // pool creation becomes free (token-factory fee still due)
+        }
         // pool creation by a user: valid (exact fees), duplicate identifier, underpaid
         let fee = pre.cfg.as_ref().map(|c| c.pool_creation_fee.clone()).unwrap_or(coin(1000, "uusd"));
-        let exact: Funds = vec![("uom".into(), 8888), (fee.denom.clone(), fee.amount.u128())];
+        let mut exact: Funds = vec![("uom".into(), 8888)];
+        if !fee.amount.is_zero() {
+            exact.push((fee.denom.clone(), fee.amount.u128()));
+        }
         if pre.pool("o.n1").is_none() {
             ops.push(PuOp::CreatePool { u: A, denoms: vec!["uusdc".into(), "uweth".into()], decimals: vec![6, 6], fees: std_fees(), amp: None, id: Some("n1".into()), funds: exact.clone() });
         }
@@ -546,6 +552,8 @@ pub fn enabled(w: &World, pre: &PuObs, alpha: Alpha) -> Vec<PuOp> {
                 ops.push(PuOp::CreatePool { u: A, denoms: vec!["uusdc".into(), "uweth".into()], decimals: vec![6, 6], fees: std_fees(), amp: None, id: Some(short), funds: exact.clone() });
             }
         }
+        // nothing attached at all
+        ops.push(PuOp::CreatePool { u: A, denoms: vec!["uusdc".into(), "uweth".into()], decimals: vec![6, 6], fees: std_fees(), amp: None, id: Some("n3".into()), funds: vec![] });
         let mut under = exact.clone();
         under[0].1 -= 1;
         ops.push(PuOp::CreatePool { u: A, denoms: vec!["uusdc".into(), "uweth".into()], decimals: vec![6, 6], fees: std_fees(), amp: None, id: Some("n2".into()), funds: under });
